@@ -11,7 +11,7 @@ Parts:
                              normalisation (pure-transform groups dissolved into accumulated transforms, ids of
                              groups / definitions ignored, numbers within 1e-4 relative)
 Noise floor (thorough tier, seeds 1, 2, 3 = 3 x 12 749 pairs, + quick runs): largest relative numeric difference
-between a construct and its expansion 1.5e-5 before / 8e-6 after comparing accumulated transforms as matrices
+between a construct and its expansion 1.5e-5 before / 3.7e-6 after comparing accumulated transforms as matrices
 (use chains of depth 5 with scale factors; transform-origin 5.5e-6; path data 1.5e-6; shapes 0) (f32 products of transforms against f64 products rounded once); tolerance 1e-4.
 """
 import copy
